@@ -43,7 +43,7 @@ ARG_POOL = [
     (DOUBLE, "1.5"),
     (T("string", const=True, suf="&"), '"hi,  there   (two  spaces)"'),
     (T("Other", ns=("ns",)), "ns::Other()"),
-    (T("Other", ns=("ns",), const=True, suf="&"), "ns::Other(1, 2)"),
+    (T("Other", ns=("ns",), const=True, suf="&"), 'ns::Other(1,\n                      "two  blanks\tand a tab")'),      # a default written over two lines
     (T("Other", ns=("ns",), suf="*"), "nullptr"),
     (T("Other", ns=("ns",), suf="@"), "nullptr"),
     (T("vector", T("Other", ns=("ns",)), ns=("std",)), "{1, 2}"),
